@@ -5,6 +5,38 @@ use domain::base::Serial;
 use domain::rdata::dnssec::Timestamp;
 use dv_harness::*;
 use std::cmp::Ordering;
+use std::str::FromStr;
+use domain::base::{Name, Rtype, Ttl};
+use domain::base::iana::Class;
+use domain::rdata::{Soa, ZoneRecordData};
+use domain::zonetree::types::ZoneDiffError;
+use domain::zonetree::{InMemoryZoneDiffBuilder, Rrset, SharedRrset, StoredName};
+
+/// Builds, through the public diff builder, a diff whose removed SOA has serial
+/// `start` and whose added SOA has serial `end`; returns whether it was refused
+/// for its serial range.
+fn diff_range_rejected(start: u32, end: u32) -> Result<bool, String> {
+    let apex: StoredName = Name::from_str("example.").unwrap();
+    let soa = |serial: u32| {
+        let mut rrset = Rrset::new(Rtype::SOA, Ttl::from_secs(3600));
+        rrset.push_data(ZoneRecordData::Soa(Soa::new(
+            Name::from_str("ns.example.").unwrap(), Name::from_str("admin.example.").unwrap(), Serial(serial),
+            Ttl::from_secs(7200), Ttl::from_secs(900), Ttl::from_secs(86400), Ttl::from_secs(300))));
+        SharedRrset::new(rrset)
+    };
+    let _ = Class::IN;
+    let mut b = InMemoryZoneDiffBuilder::new();
+    b.remove(apex.clone(), Rtype::SOA, soa(start));
+    b.add(apex, Rtype::SOA, soa(end));
+    match b.build() {
+        Ok(d) => {
+            if d.start_serial != Serial(start) || d.end_serial != Serial(end) { return Err(format!("serials {} {}", d.start_serial, d.end_serial)); }
+            Ok(false)
+        }
+        Err(ZoneDiffError::InvalidSerialRange) => Ok(true),
+        Err(e) => Err(format!("{:?}", e)),
+    }
+}
 
 fn ord(o: Option<Ordering>) -> &'static str {
     match o { Some(Ordering::Less) => "Lt", Some(Ordering::Greater) => "Gt", Some(Ordering::Equal) => "Eq", None => "None" }
@@ -175,13 +207,68 @@ fn main() {
             out.case(&c, if up { "true" } else { "false" }, q != z, "uptodate");
             out.check(up == (q.wrapping_sub(z) < 0x8000_0000), "ixfr_uptodate_not_rfc1982", &c, "");
             let c = format!("diffrange {} {}", q, z);
-            let rej = Serial(q) == Serial(z) || Serial(z) < Serial(q);
-            out.case(&c, if rej { "true" } else { "false" }, q != z, "diffrange");
+            // the real check: InMemoryZoneDiffBuilder::build() -> InMemoryZoneDiff::new
+            match catch(move || diff_range_rejected(q, z)) {
+                Ok(Ok(rej)) => {
+                    out.case(&c, if rej { "true" } else { "false" }, q != z, "diffrange");
+                    // a diff leads from a version to a strictly newer one (RFC 1982): refused iff
+                    // the end serial is equal to or serially before the start serial; a
+                    // wrap-crossing bump (0xFFFFFFFF -> 0) is a legal diff
+                    let d = z.wrapping_sub(q);
+                    let want = d == 0 || d > 0x8000_0000;
+                    if d != 0x8000_0000 { out.check(rej == want, "diff_range_not_rfc1982", &c, &format!("rejected={}", rej)); }
+                }
+                Ok(Err(e)) => { out.case(&c, "Err", false, "diffrange"); out.check(false, "diff_range_builder_error", &c, &e); }
+                Err(e) => { out.case(&c, "Panic", false, "diffrange"); out.check(false, "diff_range_panics", &c, &e); }
+            }
+        }
+    }
+    // Serial from a point in time (jiff and chrono): seconds since the epoch mod 2^32
+    {
+        const JMIN: i64 = -377_705_023_201; const JMAX: i64 = 253_402_207_200; // jiff::Timestamp range
+        let mut times: Vec<i64> = vec![0, 1, -1, 0x7FFF_FFFF, 0x8000_0000, 0xFFFF_FFFF, 0x1_0000_0000, 0x1_0000_0001,
+            0x1_7FFF_FFFF, 0x1_8000_0000, 0x2_0000_0000 - 1, 0x2_0000_0000, -0x8000_0000, -0x1_0000_0000, JMIN, JMAX, 1_790_380_800];
+        for _ in 0..(n_pairs / 20) {
+            times.push(match r.below(5) {
+                0 => (r.below(8) as i64) * 0x1_0000_0000 + interesting(&mut r) as i64,
+                1 => -((r.below(8) as i64) * 0x1_0000_0000 + interesting(&mut r) as i64),
+                2 => 0x1_0000_0000 + r.below(2000) as i64 - 1000,
+                3 => r.below(0x2_0000_0000) as i64,
+                _ => JMIN + r.below((JMAX - JMIN) as u64) as i64,
+            }.clamp(JMIN, JMAX));
+        }
+        for secs in times {
+            idx += 1;
+            if !out.wants(idx) { continue; }
+            let c = format!("fromtime {} {}", if secs < 0 { "-" } else { "+" }, secs.unsigned_abs());
+            out.begin(&c);
+            let want = secs.rem_euclid(1i64 << 32) as u32;
+            let got = catch(move || jiff::Timestamp::from_second(secs).map(|t| Serial::from(t).0));
+            match got {
+                Ok(Ok(v)) => {
+                    out.case(&c, &format!("{}", v), !(0..(1i64 << 32)).contains(&secs), "fromtime");
+                    out.check(v == want, "from_time_not_mod_2_32", &c, &format!("got {} want {}", v, want));
+                    // a later point in time is a serially greater value, also across the wrap
+                    let k = match r.below(4) { 0 => 1, 1 => 0x7FFF_FFFF, 2 => 1 + r.below(100_000) as i64, _ => 1 + r.below(0x7FFF_FFFF) as i64 };
+                    if secs + k <= JMAX {
+                        let later = Serial::from(jiff::Timestamp::from_second(secs + k).unwrap());
+                        out.check(Serial(v).partial_cmp(&later) == Some(Ordering::Less) && later.partial_cmp(&Serial(v)) == Some(Ordering::Greater),
+                            "from_time_later_not_newer", &format!("{} plus {}", c, k), &format!("{} vs {}", v, later.0));
+                        let added = catch(move || Serial(v).add(k as u32));
+                        out.check(added.map(|s| s.0).ok() == Some(later.0), "from_time_add_differs", &format!("{} plus {}", c, k), "");
+                    }
+                    // the chrono conversion agrees
+                    if let Some(dt) = chrono::DateTime::from_timestamp(secs, 0) {
+                        out.check(Serial::from(dt).0 == v, "from_time_chrono_differs", &c, &format!("{}", Serial::from(dt).0));
+                    }
+                }
+                Ok(Err(_)) => { out.case(&c, "Err", false, "fromtime"); out.check(false, "from_time_rejected", &c, "jiff refused an in-range second"); }
+                Err(e) => { out.case(&c, "Panic", false, "fromtime"); out.check(false, "from_time_panics", &c, &e); }
+            }
         }
     }
     // date notation of signature times: YYYYMMDDHHmmSS -> seconds mod 2^32
     {
-        use std::str::FromStr;
         // fixed boundary dates first
         let mut dates: Vec<(i64, i64, i64, i64, i64, i64)> = vec![
             (1970, 1, 1, 0, 0, 0), (2038, 1, 19, 3, 14, 7), (2038, 1, 19, 3, 14, 8), (2106, 2, 7, 6, 28, 15),
